@@ -338,3 +338,32 @@ Proof. exact nonvacuous_stateful. Qed.
 Theorem C06_generated_facts_present : GEN_ENUMS_OK = true /\ GEN_TRAVERSE_OK = true.
 Proof. split; reflexivity. Qed.
 Print Assumptions C06_generated_facts_present.
+
+(* ====================================================================================== *)
+(* Glue (theories/Glue/GluePreTraverseSearch.v): "pre-order" is ONE order across the models.  Every enumeration is
+   tied to the structural [pre] / [pre_f] of Base/Rose.v - here [iter_pre_eq] (C06), in C09
+   SearchProofs.iter_pre_eq / iterator_branch, in C17 ExportProofs.desc_p_snd, in C12 SerLayFacts.lay_nodes /
+   lay4_pn, in the mutation machine SurgeryFacts.rows_ids / rows_keys - and the models that were only
+   connected through Rose.v are connected directly (parent components included) in C06 / C10 / C12 / C17. *)
+From NT Require Search SurgeryFacts GluePreTraverseSearch.
+
+(* C06 <-> C09: the generator of the search model is this model's generator *)
+Theorem C06_preorder_is_the_search_models : forall t, iter_pre t = Search.iter_pre t.
+Proof. exact GluePreTraverseSearch.traverse_iter_pre_is_search_iter_pre. Qed.
+Print Assumptions C06_preorder_is_the_search_models.
+
+Theorem C06_search_iterator_is_iter_pre : forall f s b,
+  Search.iterator f s b =
+  match s with
+  | Search.SRoot => pre_f f
+  | Search.SNode t => (if b then [t] else []) ++ iter_pre t
+  end.
+Proof. exact GluePreTraverseSearch.search_iterator_is_traverse. Qed.
+Print Assumptions C06_search_iterator_is_iter_pre.
+
+(* C06 / Rose <-> the rows of the mutation machine (C01-C04, C13, heap): identity and payload of the rows,
+   in order, are the pre-order nodes *)
+Theorem C06_preorder_is_the_machines_rows : forall f o,
+  map GluePreTraverseSearch.row_node (SurgeryFacts.rows o f) = map GluePreTraverseSearch.node_pair (pre_f f).
+Proof. exact GluePreTraverseSearch.rows_nodes. Qed.
+Print Assumptions C06_preorder_is_the_machines_rows.
